@@ -76,10 +76,12 @@ def _relate(expected, got, entry):
 
 
 def one_load(task):
-    fmt, natom, mag, variant, seed, tables = task
+    fmt, natom, mag, variant, seed, tables = task[:6]
     from iodata import api
     rng = random.Random(seed)
     m = Model(rng, natom, digits=min(DIGITS[fmt], 6), mag=mag)
+    if len(task) > 6:
+        m.atom_shape = task[6]       # a basis / record shape enumerated by TLC (spec -> code)
     ev = {"op": "Load", "fmt": fmt, "natom": natom, "mag": mag, "variant": variant, "seed": seed, "load": "ok",
           "rel": {e["key"]: "n/a" for e in tables["loads"][fmt]}}
     tmp = tempfile.mkdtemp(prefix="c03_")
@@ -149,13 +151,13 @@ def plan(run, rng, tables):
         if run.thorough():
             # besides the boundary sizes: random sizes below the largest boundary, and several models per configuration
             top = min(max(sizes), 1500)
-            sizes = list(sizes) + sorted({rng.randint(1, top) for _ in range(12)} - set(sizes))
+            sizes = list(sizes) + sorted({rng.randint(1, top) for _ in range(30)} - set(sizes))
         for i, n in enumerate(sizes):
             for j, mag in enumerate(mags):
                 if n > 1500 and j > 1:
                     continue
                 for v in (variants if (i + j) % 2 == 0 or run.thorough() else variants[:1]):
-                    for _rep in range(3 if run.thorough() and n <= 200 else 1):
+                    for _rep in range((8 if n <= 50 else 4) if run.thorough() and n <= 200 else 1):
                         tasks.append((fmt, n, mag, v, rng.randint(0, 10**9), tables))
     return tasks
 
@@ -189,15 +191,23 @@ def check(run: Run):
     tables = load_tables(run)
     # the placement rule of atomic orbitals (cp2klog) is a placement: every basis shape x record sequence within the bounds
     cfga = "MC_AtomOrbitals_thorough.cfg" if run.thorough() else "MC_AtomOrbitals.cfg"
-    run.add_model(run_tlc(run, "MC_AtomOrbitals", cfga, workers=8, timeout=600, tag=cfga[:-4]))
+    shapes_file = os.path.join(run.work, "atom_shapes.json")
+    run.add_model(run_tlc(run, "MC_AtomOrbitals", cfga, workers=8, timeout=600, tag=cfga[:-4], env={"SHAPES_FILE": shapes_file}))
     tasks = plan(run, rng, tables)
+    # spec -> code: one CP2K ATOM output per shape of the model's universe (records listed per l), variants in rotation
+    with open(shapes_file) as fh:
+        shapes = json.load(fh)["shapes"]
+    vs = VARIANTS["cp2klog"]
+    for i, sh in enumerate(shapes):
+        tasks.append(("cp2klog", 1 + i % 12, "small", vs[(i + run.seed) % len(vs)], rng.randint(0, 10**9), tables, (sh["nfun"], sh["recs"])))
+    run.notes["atom_shapes_from_model"] = len(shapes)
     events = [e for e in pmap(one_load, tasks, chunksize=2)]
     skipped = [e for e in events if e["load"].startswith("skip:")]
     events = [e for e in events if not e["load"].startswith("skip:")]
     reached = validate_traces(run, "Trace_Layouts", [[e] for e in events], chunk=2000)
     for e, r in zip(events, reached):
         run.count()
-        run.distinct(json.dumps([e["fmt"], e["natom"], e["mag"], e["variant"]]))
+        run.distinct(json.dumps([e["fmt"], e["natom"], e["mag"], e["variant"], [e["atom"]["nfun"], e["atom"]["recs"]] if "atom" in e else None]))
         if r != 1:
             key, what = describe(e)
             run.violation(key, what, {"event": e})
